@@ -342,6 +342,24 @@ def run_shard(item):
         except Exception as e:
             res.violation('C15|p8file|raise|%s' % type(e).__name__, 'writing/reading a .p8 holding every byte raised %r' % (e,), case)
             return res
+        # code whose last line is not terminated: every special byte as the last character (the writer supplies the
+        # newline; the text before it is converted like any other)
+        for b in sp + [0x10, 0x1f, 0x7f, 0x80, 0xff]:
+            tail = b'x=1\n--' + bytes([b])
+            res.evaluations += 1
+            try:
+                g = carts.make_game({}, version=33, code_lines=[tail])
+                buf = io.BytesIO()
+                P8Formatter.to_file(g, buf, filename='t.p8')
+                buf.getvalue().decode('utf-8')
+                got = b''.join(P8Formatter.from_file(io.BytesIO(buf.getvalue()), filename='t.p8').lua.to_lines())
+            except Exception as e:
+                res.violation('C15|p8file|unterminated-last-line|raise|%s' % type(e).__name__,
+                              'a .p8 whose code ends in byte %#x without a newline: %r' % (b, e), case)
+                break
+            if got not in (tail, tail + b'\n'):
+                res.violation('C15|p8file|unterminated-last-line|mismatch', 'code ending in byte %#x without a newline reads back as %r' % (b, got[-12:]), case)
+                break
         # the same text when the cart is pulled in by another cart's #include (whole, and one tab of it)
         import os
         import shutil
